@@ -113,6 +113,9 @@ pub enum Op {
     WithCloneTx { tx: u16, sends: u8 },
     /// clone the receiver (if it can be cloned), try to receive once through the clone, drop it
     WithCloneRx { rx: u16, unsub: bool },
+    /// add a stream from the handle and remove it again at once (drop or unsubscribe); skipped as
+    /// a whole when the handle cannot add a stream or the queue moves values out (defect D7)
+    WithNewStream { rx: u16, unsub: bool },
     /// solo-run probe (C18): freeze all other threads and run one try operation alone
     ProbeTrySend { tx: u16 },
     ProbeTryRecv { rx: u16 },
@@ -1270,6 +1273,20 @@ impl Ctx {
                     let last = self.rxs.len() - 1;
                     self.do_try_recv(last);
                     self.drop_rx(last, *unsub, false);
+                }
+                _ => self.skip(),
+            },
+            Op::WithNewStream { rx, unsub } => match pick(*rx, self.rxs.len()) {
+                Some(i)
+                    if self.rxs[i].rx.can_add_stream()
+                        && self.sh.sc.q.flavour == crate::handles::Flavour::Broadcast
+                        && self.rxs.len() < 8 =>
+                {
+                    let before = self.rxs.len();
+                    self.exec(&Op::AddStream { rx: *rx });
+                    if self.rxs.len() == before + 1 {
+                        self.drop_rx(before, *unsub, false);
+                    }
                 }
                 _ => self.skip(),
             },
